@@ -259,12 +259,14 @@ theorem permuteComponents_spec {o : NumOps α} (K : Ktensor α) (p : List Nat) (
     (permuteComponents K p).factors.length = K.factors.length ∧
     (permuteComponents K p).weights = p.map (fun r => K.weights.getD r 0) ∧
     (∀ m, ((permuteComponents K p).factors.getD m []).length = (K.factors.getD m []).length) ∧
-    NormalCols o (permuteComponents K p) ∧ ∀ w ∈ (permuteComponents K p).weights, 0 ≤ w := by
+    NormalCols o (permuteComponents K p) ∧ (∀ w ∈ (permuteComponents K p).weights, 0 ≤ w) ∧
+    (∀ m < K.factors.length, ∀ row ∈ (permuteComponents K p).factors.getD m [], row.length = p.length) := by
   have hfac : ∀ m < K.factors.length, (permuteComponents K p).factors.getD m [] =
       tab (K.factors.getD m []).length p.length fun i r => (K.factors.getD m []).get i (p.getD r 0) := by
     intro m hm
     simp [permuteComponents, List.getD_eq_getElem?_getD, hm]
-  refine ⟨by simp [permuteComponents], rfl, fun m => ?_, fun n hn r hr => ?_, fun w hw' => ?_⟩
+  refine ⟨by simp [permuteComponents], rfl, fun m => ?_, fun n hn r hr => ?_, fun w hw' => ?_,
+    fun m hm => by rw [hfac m hm]; exact tab_row_length _ _ _⟩
   · by_cases hm : m < K.factors.length
     · rw [hfac m hm, length_tab]
     · simp [permuteComponents, List.getD_eq_getElem?_getD, List.getElem?_eq_none (Nat.le_of_not_lt hm)]
@@ -286,25 +288,30 @@ theorem arrange_spec {o : NumOps α} (ho : o.Lawful) (K : Ktensor α) :
     (arrange o K).factors.length = K.factors.length ∧ (arrange o K).weights.length = K.weights.length ∧
     (∀ m, ((arrange o K).factors.getD m []).length = (K.factors.getD m []).length) ∧
     NormalCols o (arrange o K) ∧ (∀ w ∈ (arrange o K).weights, 0 ≤ w) ∧
-    (arrange o K).weights.Pairwise (fun a b => b ≤ a) := by
+    (arrange o K).weights.Pairwise (fun a b => b ≤ a) ∧
+    (∀ m < K.factors.length, ∀ row ∈ (arrange o K).factors.getD m [], row.length = K.weights.length) := by
   obtain ⟨n1, n2, n3, n4, n5⟩ := normalize_spec ho K
   obtain ⟨s1, s2, s3⟩ := argsortDesc_spec ho (normalize o K).weights
-  obtain ⟨p1, p2, p3, p4, p5⟩ := permuteComponents_spec (o := o) (normalize o K) _ s2 n4 n5
+  obtain ⟨p1, p2, p3, p4, p5, p6⟩ := permuteComponents_spec (o := o) (normalize o K) _ s2 n4 n5
   unfold arrange
   simp only
-  refine ⟨by rw [p1, n1], by rw [p2, List.length_map, s1, n2], fun m => by rw [p3, n3], p4, p5, ?_⟩
-  rw [p2]; exact s3
+  refine ⟨by rw [p1, n1], by rw [p2, List.length_map, s1, n2], fun m => by rw [p3, n3], p4, p5, ?_,
+    fun m hm row hrow => ?_⟩
+  · rw [p2]; exact s3
+  · rw [p6 m (by rw [n1]; exact hm) row hrow, s1, n2]
 
 theorem fixsigns_spec {o : NumOps α} (K : Ktensor α) (hK : NormalCols o K) :
     (fixsigns o K).factors.length = K.factors.length ∧ (fixsigns o K).weights = K.weights ∧
     (∀ m, ((fixsigns o K).factors.getD m []).length = (K.factors.getD m []).length) ∧
-    NormalCols o (fixsigns o K) := by
+    NormalCols o (fixsigns o K) ∧
+    (∀ m < K.factors.length, ∀ row ∈ (fixsigns o K).factors.getD m [], row.length = K.weights.length) := by
   have hfac : ∀ m < K.factors.length, (fixsigns o K).factors.getD m [] =
       tab (K.factors.getD m []).length K.weights.length fun i r =>
         if (flippedModes o K r).contains m then - (K.factors.getD m []).get i r else (K.factors.getD m []).get i r := by
     intro m hm
     simp [fixsigns, List.getD_eq_getElem?_getD, hm]
-  refine ⟨by simp [fixsigns], rfl, fun m => ?_, fun n hn r hr => ?_⟩
+  refine ⟨by simp [fixsigns], rfl, fun m => ?_, fun n hn r hr => ?_,
+    fun m hm => by rw [hfac m hm]; exact tab_row_length _ _ _⟩
   · by_cases hm : m < K.factors.length
     · rw [hfac m hm, length_tab]
     · have hm' := Nat.le_of_not_lt hm
